@@ -18,6 +18,18 @@ OPTION_SETS = [[], ["-term-encoding", "int"], ["-term-encoding", "stack_vars"], 
                ["-order-bounds", "-order-conflicts", "-no-output-before-pop"], ["-storage"], ["-no-simplification"]]
 
 
+# operations applied while the stack is at its bound (the deepest cells are the ones a transition constraint can forget)
+FULL_STACK = ["PUSH1 0x1 ADD SWAP1 POP", "PUSH1 0x1 SUB SWAP1 POP", "DUP1 DUP3 ADD SWAP2 POP POP", "PUSH1 0x1 DUP3 SSTORE POP", "DUP2 DUP2 MSTORE POP",
+              "DUP2 ISZERO SWAP2 POP POP", "PUSH1 0x2 PUSH1 0x1 ADDMOD SWAP1 POP", "CALLVALUE SWAP2 POP POP", "DUP2 DUP2 LT SWAP2 POP POP"]
+# shapes on which each pruning constraint is tight: a POP right after a store / a swap / a pop, values that are dropped, repeated pushes,
+# programs that need the whole length bound
+PRUNING = ["SSTORE POP", "MSTORE POP", "MSTORE8 POP", "SWAP2 POP SWAP1 SSTORE", "SWAP2 POP SWAP1 MSTORE", "SWAP1 POP POP", "POP SWAP1 POP",
+           "SWAP1 POP SWAP1 POP", "DUP2 SSTORE POP", "SWAP1 SSTORE POP POP", "PUSH1 0x1 PUSH1 0x1 PUSH1 0x1", "PUSH1 0x7 DUP1 DUP1 ADD ADD",
+           "SLOAD POP", "DUP1 MLOAD POP POP"]
+STRUCTURAL = [[], ["-empty"], ["-pop-uninterpreted"], ["-empty", "-pop-uninterpreted"], ["-push-basic", "-term-encoding", "int"],
+              ["-empty", "-term-encoding", "int"], ["-memory-encoding", "l_vars"], ["-empty", "-term-encoding", "stack_vars"]]
+
+
 def small_blocks(rng, n):
     out = []
     for _ in range(n):
@@ -30,6 +42,7 @@ def small_blocks(rng, n):
             "PUSH1 0x1 DUP2 SSTORE PUSH1 0x2 DUP2 SSTORE", "DUP1 DUP1 MUL", "POP POP", "PUSH1 0x0 DUP2 MSTORE DUP1 MLOAD",
             # dependent stores whose second operands are on top of the initial stack (a store at position 0 must not overtake the first one)
             "SWAP2 SWAP1 SWAP3 SWAP1 SSTORE SSTORE", "SWAP2 SWAP1 SWAP3 SWAP1 MSTORE MSTORE", "SWAP2 SWAP1 SWAP3 SWAP1 MSTORE8 MSTORE"]
+    out += FULL_STACK + PRUNING
     return out
 
 
@@ -41,6 +54,10 @@ def collect(tier, sd, rng, max_len, models, osets=None):
         chosen = [osets[i % len(osets)], osets[(i * 7 + 3) % len(osets)]] if tier == "quick" else osets
         for o in chosen:
             tasks.append({"kind": "smt", "text": b, "opts": BASE + o, "max_len": max_len, "models": models, "timeout": 240})
+    # blocks that work at the stack bound: every structural variant of the transition constraints
+    for b in FULL_STACK:
+        for o in STRUCTURAL:
+            tasks.append({"kind": "smt", "text": b, "opts": BASE + o, "max_len": max(max_len, 6), "models": max(models, 8), "timeout": 240})
     # dependent stores: always with and without position bounds / instruction order, with enough models to meet a swapped pair
     for b in blocks:
         if b.startswith("SWAP2 SWAP1 SWAP3 SWAP1 "):
@@ -190,7 +207,10 @@ def run(tier):
             c["outcome:" + str(e.get("outcome"))] += 1
             seqs = [("model", m) for m in e.get("models", [])]
             if e.get("opt_ids") and e.get("outcome") in ("optimal", "non_optimal"):
-                seqs.append(("optimum", e["opt_ids"]))
+                if "PUSH" in e["opt_ids"]:
+                    c["optimum-with-basic-push-not-decoded"] += 1      # the id list does not carry the pushed constant (a_j)
+                else:
+                    seqs.append(("optimum", e["opt_ids"]))
             for kind, m in seqs:
                 if any(x is None for x in m):
                     violations.append({"kind": "model-does-not-decode", "input": " ".join(e["plain"]), "options": t["opts"],
